@@ -51,7 +51,8 @@ SMul(a, b) ==
     ELSE IF Abs(a) > MaxL \div Abs(b) THEN <<FALSE, 0>>
     ELSE <<TRUE, a * b>>
 \* truncating division and remainder with the sign of the dividend (b # 0, not MinL / -1)
-TDiv(a, b) == IF a = MinL
+TDiv(a, b) == IF b = 1 THEN a
+              ELSE IF a = MinL
               THEN (IF b > 0 THEN 0 - ((MaxL \div b) + (IF (MaxL % b) + 1 = b THEN 1 ELSE 0))
                     ELSE IF b = MinL THEN 1
                     ELSE ((MaxL \div (0 - b)) + (IF (MaxL % (0 - b)) + 1 = (0 - b) THEN 1 ELSE 0)))
@@ -94,9 +95,11 @@ FSub(t, a, b) == FAdd(t, a, FNeg(b))
 FMul(t, a, b) == LET p == SMul(a[2], b[2]) IN IF p[1] THEN MkF(t, p[2], a[3] + b[3]) ELSE OOM
 \* exact quotient when the divisor's mantissa divides the dividend's, else out of model
 FDiv(t, a, b) == IF b[2] = 0 THEN Err("DIV0")
-                 ELSE IF a[2] % b[2] = 0 THEN MkF(t, a[2] \div b[2], a[3] - b[3])
-                 ELSE LET sh == ShiftL(a[2], 20)       \* quotients like 1/8 * odd: try with 20 more bits
-                      IN IF sh[1] /\ sh[2] % b[2] = 0 THEN MkF(t, sh[2] \div b[2], a[3] - 20 - b[3]) ELSE OOM
+                 ELSE LET mb == Abs(b[2])                                  \* divisor mantissa, positive
+                          ma == IF b[2] < 0 THEN 0 - a[2] ELSE a[2]         \* sign moved to the dividend
+                      IN IF ma % mb = 0 THEN MkF(t, ma \div mb, a[3] - b[3])
+                         ELSE LET sh == ShiftL(ma, 20)       \* quotients like 1/8 * odd: try with 20 more bits
+                              IN IF sh[1] /\ sh[2] % mb = 0 THEN MkF(t, sh[2] \div mb, a[3] - 20 - b[3]) ELSE OOM
 
 \* sign of a - b for floats: -1, 0, 1 (2 = out of model)
 RECURSIVE BitLen(_)
